@@ -58,11 +58,28 @@ def run_check(prop, tier, repo_root=None, quiet=False):
                   "reported, %d undecided/anchor, %d silent, %.1fs"
                   % (sw["mutants"], len(sw["modules"]), sw["reported"],
                      sw["undecided_or_anchor"], sw["silent"], sw["wall_s"]))
+            # informational behaviour-preserving transformation sweep: how
+            # many automatically refactored copies of the anchor files keep
+            # this check silent (a non-silent one is a false alarm of the
+            # checker; it is recorded, it never changes the verdict)
+            from . import benignsweep
+            bs = benignsweep.sweep(
+                props=[prop], jobs=jobs, seed=seed,
+                limit=int(os.environ.get("NGS_BENIGN", "96")),
+                modules=mutsweep._consulted(prop))
+            print("benign sweep: %d behaviour-preserving rewrites of the "
+                  "anchor files, %d not silent, %.1fs"
+                  % (bs["trees"], bs["alarming"], bs["wall_s"]))
+            for r in bs["alarms"][:5]:
+                print("  NOTE false alarm on %s %s %s: %s" % (
+                    r["op"], r["file"], r["function"], r["alarms"][:2]))
             path = os.path.join(VERIF, "evidence", "%s.json" % prop)
             if os.path.exists(path) and not os.environ.get("NGS_NO_EVIDENCE"):
                 ev = json.load(open(path))
                 ev["coverage"]["mutation_sweep"] = sw
-                ev["wall_s"] = round(ev["wall_s"] + sw["wall_s"], 3)
+                ev["coverage"]["benign_sweep"] = bs
+                ev["wall_s"] = round(ev["wall_s"] + sw["wall_s"]
+                                     + bs["wall_s"], 3)
                 json.dump(ev, open(path, "w"), indent=1)
         return rc
     except AnalysisError as exc:
